@@ -29,12 +29,12 @@ def workdir(tag):
 
 # ------------------------------------------------------------------ generation
 def generate(phases, wd, module="MC_Gen.tla", cfg="MC_Gen.cfg", simulate=None, extra_env=None, timeout=900,
-             name="gen", extra=None):
+             name="gen", extra=None, envvar="GEN_PHASES"):
     """Ask TLC for every behaviour of the model under `phases`.  Returns (stimuli, stats)."""
     pf = os.path.join(wd, name + "_phases.json")
     with open(pf, "w") as f:
         json.dump(phases, f)
-    env = {"GEN_PHASES": pf}
+    env = {envvar: pf}
     env.update(extra_env or {})
     r = tlcrun.run_tlc(module, cfg, env=env, workers=1, metadir=os.path.join(wd, name + "_meta"),
                        timeout=timeout, simulate=simulate, extra=extra)
@@ -80,13 +80,14 @@ def to_driver_stimuli(behaviours, palettes, seed, all_palettes=False, tolerant=F
 
 # ---------------------------------------------------------------------- replay
 def _replay_chunk(args):
-    chunk, wd = args
+    chunk, wd, modname = args
     sys.path.insert(0, "/repo")
-    from . import driver
+    import importlib
+    driver = importlib.import_module("harness." + modname)
     return driver.run_batch(chunk, wd)
 
 
-def replay(stimuli, wd, nproc=NPROC):
+def replay(stimuli, wd, nproc=NPROC, driver="driver"):
     """Run every stimulus through the real code (fresh worker processes importing /repo)."""
     if not stimuli:
         return []
@@ -94,7 +95,7 @@ def replay(stimuli, wd, nproc=NPROC):
     chunks = [stimuli[i::k] for i in range(k)]
     ctx = mp.get_context("fork")
     with ctx.Pool(min(nproc, k)) as pool:
-        res = pool.map(_replay_chunk, [(c, wd) for c in chunks])
+        res = pool.map(_replay_chunk, [(c, wd, driver) for c in chunks])
     traces = [t for r in res for t in r]
     bad = [t for t in traces if "machinery_error" in t]
     if bad:
